@@ -813,6 +813,9 @@ where
                     Symbol::Rule(s_ridx) => {
                         st.push((pidx, sidx + 1));
                         st.push((cheapest_prod(*s_ridx), 0));
+                        // The rest of this production is dealt with once the rule's
+                        // sentence has been generated.
+                        break;
                     }
                     Symbol::Token(s_tidx) => {
                         s.push(*s_tidx);
